@@ -643,6 +643,15 @@ func (g *Graph) factsLattice() Lattice[Facts] {
 						switch x := rhs.(type) {
 						case *ast.CallExpr:
 							addMake(lhs, x)
+							if fn := calleeOf(info, x); fn != nil {
+								if callee := g.P.FuncOf(fn); callee != nil && callee.Pkg == g.P.Root {
+									if rr := g.P.resultRange(callee); rr != nil && rr.paramIdx < len(x.Args) && !mentions(normStr(info, x.Args[rr.paramIdx]), lhsStr) {
+										// minConst <= result < len(arg)
+										n.setRel(token.LSS, lhs, &ast.UnaryExpr{Op: token.SUB, X: &ast.BasicLit{Kind: token.INT, Value: fmtInt(int(-rr.lo))}}, false)
+										n.setRel(token.LSS, lhs, &ast.CallExpr{Fun: ast.NewIdent("len"), Args: []ast.Expr{x.Args[rr.paramIdx]}}, true)
+									}
+								}
+							}
 							if hi, lo, ok := g.P.resultLenOf(info, x, 0); ok && !mentions(normStr(info, hi), lhsStr) {
 								if lo == 0 {
 									n.setRel(token.EQL, &ast.CallExpr{Fun: ast.NewIdent("len"), Args: []ast.Expr{lhs}}, hi, true)
